@@ -7,6 +7,7 @@ package main
 
 import (
 	"fmt"
+	"go/token"
 	"go/types"
 
 	"golang.org/x/tools/go/ssa"
@@ -386,4 +387,85 @@ func checkCopyURL(p *Prog, r *Report, rule string) {
 	}
 	r.Check((whole || len(missing) == 0) && wrong == "", rule, "utils.CopyURL: the copy has every field of the original", p.FuncPos(fn), "whole-struct copy of *arg (User re-pointed to a copy)",
 		fmt.Sprintf("the copy is built field by field and does not take these fields from the original: %v%s: a request target such as /a%%2Fb/meta? loses its RawPath / ForceQuery on the first attempt and on every retry", missing, map[bool]string{true: " (field " + wrong + " is given another value)", false: ""}[wrong != ""]))
+}
+
+// checkNoLiveHandOut: an exported method of package memmetrics that returns a pointer to one of the package's
+// own mutable statistic types hands out a private object, never one that the receiver keeps updating: the
+// returned pointer is not loaded from the receiver's state (a field, an element of a slice/array/map field).
+// Readers use the result after the method released its lock; a live object is then read while Record writes it.
+func checkNoLiveHandOut(p *Prog, r *Report, rule string) int {
+	sp := p.Pkg("memmetrics")
+	if sp == nil {
+		return 0
+	}
+	n := 0
+	for _, fn := range p.PkgFuncs("memmetrics") {
+		if fn.Parent() != nil || fn.Blocks == nil || fn.Signature.Recv() == nil || !fn.Object().Exported() || fn.Signature.Results().Len() == 0 {
+			continue
+		}
+		rt := fn.Signature.Results().At(0).Type()
+		if _, isPtr := rt.(*types.Pointer); !isPtr {
+			continue
+		}
+		nt := derefNamed(rt)
+		if nt == nil || nt.Obj().Pkg() != sp.Pkg {
+			continue
+		}
+		if _, isStruct := nt.Underlying().(*types.Struct); !isStruct {
+			continue
+		}
+		recv := fn.Params[0]
+		var fromState func(v ssa.Value, d int) bool
+		fromState = func(v ssa.Value, d int) bool {
+			if d > 8 {
+				return false
+			}
+			switch x := stripConv(v).(type) {
+			case *ssa.Phi:
+				for _, e := range x.Edges {
+					if fromState(e, d+1) {
+						return true
+					}
+				}
+			case *ssa.UnOp:
+				if x.Op != token.MUL {
+					return false
+				}
+				switch a := x.X.(type) {
+				case *ssa.FieldAddr:
+					_, _, base, ok := fieldOf(a)
+					return ok && stripConv(base) == ssa.Value(recv)
+				case *ssa.IndexAddr:
+					return fromState(a.X, d+1) || isRecvFieldLoad(a.X, recv)
+				}
+			case *ssa.Lookup:
+				return isRecvFieldLoad(x.X, recv)
+			case *ssa.Extract:
+				if lk, ok := x.Tuple.(*ssa.Lookup); ok {
+					return isRecvFieldLoad(lk.X, recv)
+				}
+			}
+			return false
+		}
+		n++
+		r.Fn(FName(fn))
+		var bad *ssa.Return
+		for _, ret := range Returns(fn) {
+			if fromState(ReturnOperand(ret, 0), 0) {
+				bad = ret
+			}
+		}
+		r.Check(bad == nil, rule, FName(fn)+": does not hand out an object the receiver keeps updating", p.FuncPos(fn), "no returned pointer is loaded from the receiver's own state",
+			"the method returns a pointer stored in the receiver"+posOf(p, bad)+": the caller reads it after the lock is released while Record / Update keep writing it (data race, and the 'snapshot' keeps changing)")
+	}
+	return n
+}
+
+func isRecvFieldLoad(v ssa.Value, recv ssa.Value) bool {
+	u, ok := stripConv(v).(*ssa.UnOp)
+	if !ok || u.Op != token.MUL {
+		return false
+	}
+	_, _, base, ok := fieldOf(u.X)
+	return ok && stripConv(base) == recv
 }
